@@ -4,8 +4,8 @@ CONSTANTS
   OffsMod = 65536
   Kind = "nameaddr"
   Atoms <- AtomsQuoteV
-  Prefix <- PfxNone
-  MaxLen = 7
+  Prefix <- PfxABVal
+  MaxLen = 10
   Cfgs <- CfgsNA8
   Junk = 34
   EmitOn = TRUE
